@@ -25,8 +25,8 @@ def wildcard_branch(ctx):
     m, w = model(ctx)
     b = None
     for br in m.branches:
-        if br.codes == {'x', 'X'}:
-            b = br
+        if br.codes == {'x', 'X'} and b is None:
+            b = br          # the outermost one: it holds the per-entry loop as well
     ctx.require(b is not None, "_t_eval: no branch testing both wildcard codes ('x', 'X')")
     return m, w, b
 
@@ -45,13 +45,14 @@ def expansions(ctx, m, stmts):
 def worklist(ctx):
     m, w, b = wildcard_branch(ctx)
     u, cfg = m.unit, m.cfg
-    deep = [x for x in m.branches if x.codes == {'X'} and x.outer is b]
-    ctx.require(len(deep) == 1, "_t_eval: '**' sub-branch not found")
-    body = deep[0].body
+    # what runs for '**': the wildcard branch with the tests on the op code decided
+    body = m.code_slice(b.body, 'X')
+    ctx.require(any(s_ not in m.code_slice(b.body, 'x') for s_ in body), "_t_eval: '**' sub-branch not found")
     exps = expansions(ctx, m, body)
     ctx.require(len(exps) >= 2, "'**': expansions not found")
     work = exps[0].args[0].id if is_name(exps[0].args[0]) else None
-    loops = [n for s in body for n in ast.walk(s) if isinstance(n, ast.For) and is_name(n.iter, work)]
+    loops = [n for s in body for n in ast.walk(s) if isinstance(n, ast.For) and is_name(n.iter, work)
+             and any(e_ in list(ast.walk(n)) for e_ in exps)]
     ctx.require(len(loops) == 1, "'**': loop over the worklist not found")
     lp = loops[0]
     ln = cfg.node_of(lp)
@@ -87,7 +88,8 @@ def worklist(ctx):
         if not ok_shape:
             continue
         x = e.args[1].id
-        rec = x in recorded_ids(en)
+        # an expansion before the loop: its object is in the set when the loop starts
+        rec = x in recorded_ids(en if ln in en.loop_stack else ln)
         ctx.ob(rec, u, 'id(%s) is recorded as visited before `%s`' % (x, norm(e)),
                '' if rec else 'the object is expanded without being recorded: if it is reachable from itself it is expanded a '
                'second time (a cyclic root yields duplicate descendants)', node=e)
@@ -230,8 +232,8 @@ def code_agreement(ctx):
     ctx.ob(ok, su, 'the count is the sum over both codes: %s' % [norm(r) for r in rets])
     # interpreter
     ctx.ob(b.codes == {star, sstar}, m.unit, 'the interpreter\'s wildcard branch tests exactly these codes: %s' % sorted(b.codes))
-    inner = {tuple(sorted(x.codes)) for x in m.branches if x.outer is b}
-    ctx.ob(inner == {(star,), (sstar,)}, m.unit, 'and distinguishes them inside: %s' % sorted(inner))
+    only_deep = [s_ for s_ in m.code_slice(b.body, sstar) if s_ not in m.code_slice(b.body, star)]
+    ctx.ob(bool(only_deep), m.unit, 'and distinguishes them inside: %d statement(s) run for %r only' % (len(only_deep), sstar))
     # formatter
     fu = ctx.unit('core._format_t')
     fm = {}
@@ -285,16 +287,17 @@ def nesting(ctx):
 def order(ctx):
     m, w, b = wildcard_branch(ctx)
     u, cfg = m.unit, m.cfg
-    shallow = [x for x in m.branches if x.codes == {'x'} and x.outer is b]
-    deep = [x for x in m.branches if x.codes == {'X'} and x.outer is b]
-    ctx.require(len(shallow) == 1 and len(deep) == 1, 'wildcard sub-branches not found')
-    ex = expansions(ctx, m, shallow[0].body)
-    ok = len(ex) == 1 and is_name(ex[0].args[1], m.cur_var) and len(shallow[0].body) == 1
+    # the statements run for each code (tests on the op code decided), and those run for one only
+    sx, sX = m.code_slice(b.body, 'x'), m.code_slice(b.body, 'X')
+    only_x, only_X = [s_ for s_ in sx if s_ not in sX], [s_ for s_ in sX if s_ not in sx]
+    ctx.require(only_X, 'wildcard sub-branches not found')
+    ex = expansions(ctx, m, sx)
+    ok = len(ex) == 1 and is_name(ex[0].args[1], m.cur_var) and all(isinstance(s_, ast.Expr) and s_.value is ex[0] for s_ in only_x)
     ctx.ob(ok, u, '* lists the children of the current value only: %s' % [norm(e) for e in ex])
-    ins = [c for s in deep[0].body for c in ast.walk(s) if isinstance(c, ast.Call) and isinstance(c.func, ast.Attribute) and c.func.attr == 'insert']
+    ins = [c for s in sX for c in ast.walk(s) if isinstance(c, ast.Call) and isinstance(c.func, ast.Attribute) and c.func.attr == 'insert']
     ok = len(ins) == 1 and isinstance(ins[0].args[0], ast.Constant) and ins[0].args[0].value == 0 and is_name(ins[0].args[1], m.cur_var)
     ctx.ob(ok, u, '** lists the value itself first: %s' % [norm(i) for i in ins])
-    lp = [n for s in deep[0].body for n in ast.walk(s) if isinstance(n, ast.For)]
+    lp = [n for s in only_X for n in ast.walk(s) if isinstance(n, ast.For)]
     ok = len(lp) == 1 and is_name(lp[0].iter) and not isinstance(lp[0].iter, ast.Call)
     ctx.ob(ok, u, 'descendants are visited breadth-first: the worklist is iterated front to back while it grows at the end')
     if ins and lp:
@@ -437,3 +440,40 @@ def object_keys_predicate_is_duck_typed(ctx):
     ok = len(kr) == 1 and norm(deref(ctx.cfg(ku), ctx.cfg(ku).node_of(kr[0]), kr[0].value)) == '%s.__dict__.keys()' % ku.params[0]
     ctx.ob(ok, ku, 'the keys handler uses exactly that: %s' % [norm(r) for r in kr])
     ctx.floor(3)
+
+
+@rule('C14.17')
+def keys_are_not_autodiscovered(ctx):
+    """an op declared with a discovery function gets an exact (type, op) entry for every type
+    registered afterwards, and exact entries win over the type tree; 'keys' is resolved by the tree
+    alone (dict, then the duck-typed object predicate), so no declaration anywhere in the package
+    gives 'keys' a discovery function -- it would make every explicitly registered class a leaf
+    for '*' and '**'"""
+    from ..util import kwarg
+    p = ctx.program
+    seen, bad = [], []
+    sites = [(u, c) for u in p.package_units() for c in calls_in(u)]
+    for m in p.modules.values():
+        if m.short != 'tutorial':
+            sites += [(ctx.unit('core.TargetRegistry._register_builtin_ops'), st.value) for st in m.tree.body
+                      if isinstance(st, ast.Expr) and isinstance(st.value, ast.Call)]
+    for u, c in sites:
+        if True:
+            f = c.func
+            nm = f.id if isinstance(f, ast.Name) else f.attr if isinstance(f, ast.Attribute) else None
+            if nm != 'register_op':
+                continue
+            op = kwarg(c, 'op_name', 0)
+            auto = kwarg(c, 'auto_func', 1)
+            if not isinstance(op, ast.Constant):
+                continue        # the forwarding wrapper: core.register_op(op_name, **kwargs)
+            seen.append((op.value, u, c))
+            if op.value == 'keys' and auto is not None and not (isinstance(auto, ast.Constant) and auto.value is None):
+                bad.append((u, c))
+    declared = sorted({o for o, _, _ in seen})
+    ctx.require({'iterate', 'get'} <= set(declared), 'built-in op declarations not found (%s)' % declared)
+    u0 = ctx.unit('core.TargetRegistry._register_builtin_ops')
+    ctx.ob(not bad, bad[0][0] if bad else u0, "no discovery function is declared for 'keys' (ops declared with one: %s)" % declared,
+           '' if not bad else "%s: register() then stores an exact keys entry for every registered class, which shadows the "
+           "object / mapping match in the type tree" % norm(bad[0][1]), node=bad[0][1] if bad else None)
+    ctx.floor(1)
